@@ -201,7 +201,34 @@ def run_case(c):
             seen = "None"
         nc = clist([cpair(cnat(i), cnat(k)) for i, k in enumerate(c["ncases"])])
         row = clist([cpair(cnat(i), cz(s)) for i, s in enumerate(sample)])
-        return {"coq": f"(DCase {o} {cnat(stride)} {nc} {row} {seen})", "features": feats,
+        # the code-shaped loop on the observed raw vectors, for a multi-row labelled matrix in a shuffled column order
+        extra = []
+        import random as _r
+        rr = _r.Random(len(c["quad"]) * 7 + sum(c["sample"]))
+        order = list(range(len(labels)))
+        rr.shuffle(order)
+        mrows = [list(sample)] + [[rr.randrange(k) for k in c["ncases"]] for _ in range(rr.randint(0, 2))]
+        if c["bad"] and len(mrows) > 1 and rr.random() < 0.5:
+            mrows[0], mrows[-1] = mrows[-1], mrows[0]          # the bad row is not the first one
+        arr = np.array([[r[i] for i in order] for r in mrows], dtype=np.int64).reshape(len(mrows), len(labels))
+        try:
+            en2 = d.energies((arr, [labels[i] for i in order]))
+            seen2 = "(Some %s)" % clist([cq(F(e)) for e in en2])
+        except ValueError:
+            seen2 = "None"
+        import warnings
+        with warnings.catch_warnings():
+            warnings.simplefilter("ignore")
+            vec = d.to_numpy_vectors()
+        starts = clist([cnat(int(x)) for x in vec[0]])
+        vlin = clist([cq(F(x)) for x in vec[1]])
+        vquad = clist([f"({cnat(int(a))}, {cnat(int(b))}, {cq(F(x))})" for a, b, x in zip(*vec[2])])
+        adjv = clist([clist([cnat(int(v)) for v in row_]) for row_ in d._cydqm.adj])
+        vars_ = clist([cnat(T.idx(l)) for l in d.variables])
+        ls2 = clist([cnat(T.idx(labels[i])) for i in order])
+        rows2 = clist([clist([cz(int(x)) for x in r]) for r in arr])
+        extra.append(f"(DLoop {starts} {vlin} {vquad} {cq(F(d.offset))} {adjv} {vars_} {ls2} {rows2} {seen2})")
+        return {"coq": f"(DCase {o} {cnat(stride)} {nc} {row} {seen})", "extra_coq": extra, "features": feats,
                 "nontrivial": bool(labels)}
     # quadratic models
     desc = c["desc"]
@@ -260,7 +287,34 @@ def run_case(c):
     vars_ = clist([cnat(T.idx(v)) for v in mvars])
     feats["form"] = form
     feats["nvars"] = len(mvars)
-    return {"coq": f"(QCase {coq_obs(o, T)} {vars_} {ls} {crows} {seen})", "features": feats,
+    extra = []
+    cobs = coq_obs(o, T)
+    if kind in ('bqm64', 'bqm32', 'qm'):
+        # the code-shaped loop of cyQMBase._energies evaluated on the raw adjacency structure
+        d = target.data
+        rlin = clist([cq(F(x)) for x in np.asarray(d._ilinear())])
+        radj = clist([clist([cpair(cnat(int(e[0])), cq(F(e[1]))) for e in np.asarray(d._ineighborhood(i))])
+                      for i in range(target.num_variables)])
+        rvts = clist([target.vartype(v).name for v in target.variables])
+        raw = f"(Adj.mkQM {rlin} {radj} {cq(F(target.offset))} {rvts})"
+        extra.append(f"(CyCase {cnat(len(T))} {cobs} {raw} {vars_} {ls} {crows} {seen})")
+    elif kind == 'bqmobj':
+        # pyBQM.energies on the observed dict-of-dicts (insertion order kept, diagonal = linear bias)
+        adj = clist([cpair(cnat(T.idx(u)), clist([cpair(cnat(T.idx(v)), cq(F(b))) for v, b in Nu.items()]))
+                     for u, Nu in target.data._adj.items()])
+        pb = f"(PyBqm.mkPyBqm {adj} {cq(F(target.data.offset))})"
+        extra.append(f"(PyCase {cnat(len(T))} {cobs} {pb} {ls} {crows} {seen})")
+    elif kind in ('cqm_obj', 'cqm_con', 'cqm_const'):
+        # cyexpression._energies on the raw expression state
+        idx = [int(x) for x in target._iindices()]
+        pv = list(cqm.variables)
+        rvts = clist([cqm.vartype(pv[i]).name for i in idx])
+        rlin = clist([cq(F(x)) for x in target._ilinear()])
+        rquad = clist([f"({cnat(int(u))}, {cnat(int(v))}, {cq(F(b))})" for u, v, b in target._iquadratic()])
+        pvars = clist([cnat(T.idx(v)) for v in pv])
+        xe = f"(mkX {clist([cnat(i) for i in idx])} (qm_of_raw {rvts} {rlin} {rquad} {cq(F(target.offset))}))"
+        extra.append(f"(XCase {cnat(len(T))} {cobs} {xe} {pvars} {ls} {crows} {seen})")
+    return {"coq": f"(QCase {cobs} {vars_} {ls} {crows} {seen})", "extra_coq": extra, "features": feats,
             "nontrivial": bool(o["lin"] or o["quad"]) or kind == 'cqm_const'}
 
 
